@@ -265,10 +265,14 @@ func buildTarget(state *core.BuildState, target *core.BuildTarget, runRemotely b
 			if err != nil {
 				return err
 			}
-			if changed {
+			// Filegroups don't record a rule hash, so nothing tells us whether their declared hashes
+			// are still the ones the existing outputs were checked against; check them every time.
+			if changed || len(target.Hashes) > 0 {
 				if _, err := calculateAndCheckRuleHash(state, target); err != nil {
 					return err
 				}
+			}
+			if changed {
 				target.SetState(core.Built)
 				state.LogBuildResult(target, core.TargetBuilt, "Built")
 			} else {
